@@ -1,7 +1,9 @@
 """C20: the work done to resolve, convert and serialise grows polynomially.
 Deterministic executed-line counts (sys.settrace over /repo/demes/*.py) of each public operation on
 ten model families at growing sizes; the growth exponent is estimated from the two largest sizes and
-compared with a low-degree bound; a count budget stops runaway cases.  coq/Props/C20.v holds the
+compared with a low-degree bound; a count budget stops runaway cases; for six operations the counts are
+also compared with the cost model of coq/Model/Steps.v (proved polynomial): lines <= K * (steps + 1), and the
+ratio lines/steps may not grow with the model size.  coq/Props/C20.v holds the
 theorem side: the subset search of simplification examines every subset larger than the largest
 clique (an exponential lower bound on rings / paths / stars that share one rate)."""
 import json
@@ -20,6 +22,11 @@ RULE = ("cases are (operation, family, size): operations fromdict, asdict, asdic
 
 BUDGET = 3_000_000
 MAX_DEGREE = 4.2
+# cost model (coq/Model/Steps.v, polynomial by coq/Proofs/StepsProofs.v): executed lines <= K * (steps + 1); K = 1.5 x the
+# largest ratio seen on the unchanged tree, and the ratio may not grow with the size of the model (that would mean the
+# implementation's degree exceeds the model's)
+STEP_K = {"fromdict": 130.0, "asdict": 90.0, "migration_matrices": 12.0, "in_generations": 6.5, "to_ms": 50.0, "events": 32.0}
+RATIO_GROWTH = 1.6
 
 
 def families():
@@ -119,7 +126,7 @@ class Counter:
         self.over = False
 
     def tracer(self, frame, event, arg):
-        if not frame.f_code.co_filename.startswith("/repo/demes/"):
+        if not frame.f_code.co_filename.startswith(common.REPO + "/demes/"):
             return None
         return self.local
 
@@ -151,10 +158,14 @@ def count(fn, budget=BUDGET):
 
 def run(chk):
     import demes
+    import gen
+    import wire
     nobl, ndis, axioms = common.proof_stage(chk)
     if ndis == 0:
         return chk.finish("other", nobl, ndis, axioms, RULE)
+    drv = wire.Driver()
     fams = families()
+    ratio_stats = {}
     sizes = [2, 4, 6, 8, 10, 12] + ([16, 24, 32] if True else [])
     if chk.tier == "thorough":
         sizes += [48, 64]
@@ -180,6 +191,12 @@ def run(chk):
             "dumps_json_resolved": lambda d, g: demes.dumps(g, format="json", simplified=False),
             "events": lambda d, g: g.discrete_demographic_events(),
         }
+        steps = {}
+        for n, (d, g) in graphs.items():
+            try:
+                steps[n] = drv.call("steps", gen.graph_payload(g))
+            except Exception as e:
+                chk.unproven("cost:steps-model", "the cost model could not be evaluated", dict(family=fname, size=n, error=repr(e)))
         for oname, op in ops.items():
             series = []
             for n in sizes:
@@ -194,6 +211,27 @@ def run(chk):
                 series.append((n, c, over))
                 chk.case([oname, fname, n], nontrivial=n >= 6)
             table["%s/%s" % (oname, fname)] = series
+            if oname in STEP_K:
+                rs = [(n, c / (steps[n][oname] + 1.0), c, steps[n][oname]) for n, c, ov in series if not ov and n in steps]
+                for n, r, c, st in rs:
+                    ratio_stats.setdefault(oname, []).append(r)
+                    if r > STEP_K[oname]:
+                        chk.unproven("cost:exceeds-model:%s:%s" % (oname, fname),
+                                      "%s on family %s at size %d executes %d lines, more than %.1f x the %d steps of the proved-polynomial "
+                                      "cost model" % (oname, fname, n, c, STEP_K[oname], st),
+                                      dict(correspondence="executed lines of %s <= %.1f * (coq/Model/Steps.v steps_%s + 1)" % (oname, STEP_K[oname], oname),
+                                           theorem="coq/Props/C20.v: C20_steps_in_generations_linear etc.", operation=oname, family=fname, size=n, lines=c, steps=st,
+                                           ratio=round(r, 2), bound=STEP_K[oname]))
+                        break
+                mid = [r for n, r, _, _ in rs if 8 <= n < rs[-1][0]] if rs else []
+                if mid and rs[-1][0] >= 16 and rs[-1][1] > RATIO_GROWTH * max(mid):
+                    chk.unproven("cost:outgrows-model:%s:%s" % (oname, fname),
+                                  "%s on family %s: executed lines per model step grow with the size (%.2f at size %d against at most %.2f "
+                                  "at sizes 8..%d): the implementation's degree exceeds the proved-polynomial cost model's"
+                                  % (oname, fname, rs[-1][1], rs[-1][0], max(mid), rs[-2][0]),
+                                  dict(correspondence="executed lines of %s per step of coq/Model/Steps.v steps_%s do not grow with the size" % (oname, oname),
+                                       theorem="coq/Props/C20.v: C20_steps_in_generations_linear etc.", operation=oname, family=fname,
+                                       ratios=[(n, round(r, 2)) for n, r, _, _ in rs]))
             if len(series) < 3:
                 continue
             over = series[-1][2]
@@ -209,7 +247,9 @@ def run(chk):
                                                        "exceeds %d executed lines at %d demes" % (BUDGET, series[-1][0]) if over
                                                        else "growth exponent %.1f between sizes %d and %d" % (slope, n1, n2)), rep)
             chk.count("series_ok" if not (over or slope > MAX_DEGREE) else "series_superpolynomial")
+    drv.close()
     chk.extra["line_counts"] = {k: v for k, v in table.items()}
+    chk.extra["lines_per_model_step"] = {o: dict(min=round(min(r), 2), max=round(max(r), 2), bound=STEP_K[o]) for o, r in ratio_stats.items()}
     chk.sample(dict(series="asdict_simplified/ring", counts=table.get("asdict_simplified/ring")))
     chk.sample(dict(series="fromdict/islands", counts=table.get("fromdict/islands")))
     return chk.finish("other", nobl, ndis, axioms, RULE,
